@@ -1,4 +1,5 @@
 import PkgModel.SpecifierSet
+import PkgModel.Email
 /-!
 # Small model functions extracted in the seventh translator round (additions; nothing existing refers to them)
 
@@ -90,3 +91,17 @@ def SpecSet.repr (T : SpecSet) (it : List Member) : Str :=
   Py.ofString "<SpecifierSet(" ++ reprAscii (T.str it) ++ reprPre T.pre ++ Py.ofString ")>"
 
 end SSet
+
+namespace Email
+open Py
+
+/-- `_get_payload(msg, source)` on the payload the parser presents (x7: extracted from `parseEmail`, which inlines it):
+`.error` is the class of the exception that escapes -/
+def getPayload : Payload → Except Str Str
+  | .other => .error (ofString "AssertionError")
+  | .str s => .ok s
+  | .bytes b => match utf8Decode b with
+    | some s => .ok s
+    | none => .error (ofString "ValueError")
+
+end Email
